@@ -268,6 +268,34 @@ func c16DryRun(c c16Case) error {
 	if df := s1.diff(s2, true); df != "" {
 		return fmt.Errorf("dry-run emitters (no target buffer): after Clone+Append the emitter differs from a direct one (split at %d of %d): %s", c.Split, len(c.Ops), df)
 	}
+	// an emitter without a buffer has no capacity: a clone that was given a real buffer and emitted bytes into it cannot be
+	// appended (refused, the original stays as it was); one that emitted nothing can
+	{
+		o := asm.NewEmitter(nil, false)
+		for _, op := range c.Ops[:c.Split] {
+			asmcat.ApplyReal(o, op)
+		}
+		before := snapOf(o)
+		rc := o.Clone(make([]byte, needOf(c.Ops[c.Split:])+16))
+		for _, op := range c.Ops[c.Split:] {
+			asmcat.ApplyReal(rc, op)
+		}
+		var pan interface{}
+		func() {
+			defer func() { pan = recover() }()
+			o.Append(rc)
+		}()
+		if rc.Len() > 0 {
+			if pan == nil {
+				return fmt.Errorf("an emitter without a target buffer accepted the Append of a clone holding %d bytes", rc.Len())
+			}
+			if df := before.diff(snapOf(o), true); df != "" {
+				return fmt.Errorf("an emitter without a target buffer refused the Append of a clone holding %d bytes but changed: %s", rc.Len(), df)
+			}
+		} else if pan != nil {
+			return fmt.Errorf("an emitter without a target buffer refused the Append of a clone that emitted no bytes: %v", pan)
+		}
+	}
 	if c.Listing {
 		// listings of emitters without a buffer: whatever the direct one produces (text or failure), the joined one produces too
 		if df := observe(d).diff(observe(a)); df != "" {
